@@ -233,6 +233,29 @@ class Interval:
                 return (self ** Interval.point(-other.start)).inverse()
         else:
             if eval_expr(self.start) > 0 or eval_expr(self.start) == 0 and self.left_open:
+                if eval_expr(other.start) > 0 and eval_expr(self.start) < 1:
+                    # x ^ y is decreasing in y for x < 1 and increasing for x > 1: the extreme
+                    # values are taken at corners of the box, find out which ones.
+                    corners = [(b, y, b_open, y_open)
+                               for b, b_open in ((self.start, self.left_open), (self.end, self.right_open))
+                               for y, y_open in ((other.start, other.left_open), (other.end, other.right_open))]
+
+                    def value(c):
+                        return float(eval_expr(c[0])) ** float(eval_expr(c[1]))
+
+                    def bound(c):
+                        b, y, b_open, y_open = c
+                        v = value(c)
+                        if v == float('inf'):
+                            return expr.POS_INF, True
+                        if b.is_inf() or y.is_inf():
+                            return expr.Const(int(v)), True    # limit 0 or 1, not attained
+                        # along a closed side of the base the value only depends on y for base 0 or 1
+                        is_open = b_open or (y_open and eval_expr(b) not in (0, 1))
+                        return normalize_constant(b ** y), is_open
+                    start, left_open = bound(min(corners, key=value))
+                    end, right_open = bound(max(corners, key=value))
+                    return Interval(start, end, left_open, right_open)
                 if eval_expr(other.start) > 0:
                     r = eval_expr(self.end) ** eval_expr(other.end)
                     l = eval_expr(self.start) ** eval_expr(other.start)
